@@ -102,12 +102,17 @@ func twinOf(t int) int {
 
 func tagFor(r *detsim.Rand, t int) string {
 	if t >= 1000 {
-		return []string{"", "", "v2", "valid"}[r.Intn(4)]
+		return []string{"", "", "v2", "valid", EmptyTag}[r.Weighted([]int{3, 3, 3, 3, 1})]
 	}
 	tags := statics[t].tags
 	tg := tags[r.Intn(len(tags))]
 	if tg == "" && r.Chance(1, 6) {
 		tg = "valid"
+	}
+	if r.Chance(1, 12) {
+		// the empty tag name passed explicitly ("rules only, ignore the struct tags") is a tag name of its own, not the default one
+		// (seeded C08r keyed the default tag as "")
+		tg = EmptyTag
 	}
 	return tg
 }
